@@ -364,7 +364,8 @@ class RejectionSample(Contract):
         s = mk_any_samples(I, "Samples", "s", FIELDS[1:])
         I.path.assume(s.f["x"].n >= 1)
         rng = Sym(z3.Const("user_rng", Misc), "rng")
-        return Pre(s, [], {"rng": rng if shape["rng"] else NONE}, ghost={"s": s, "rng": rng, "shape": shape, "snapshot": dict(s.f)})
+        frame = {k: (Arr(v.n, v.elem, v.at, v.key, v.meta, v.facts) if isinstance(v, Arr) else v) for k, v in s.f.items()}
+        return Pre(s, [], {"rng": rng if shape["rng"] else NONE}, ghost={"s": s, "rng": rng, "shape": shape, "snapshot": dict(s.f), "frame": frame})
 
     def post(self, I, pre, r):
         p, g = I.path, pre.ghost
@@ -378,7 +379,7 @@ class RejectionSample(Contract):
         p.prove(to_int(size) == snap["x"].n, f"{q}:C02:one uniform draw per sample")
         if g["shape"]["rng"]:
             p.prove(z3.BoolVal(gen is g["rng"]), f"{q}:C20:the generator supplied by the caller is the one used")
-        lw = snap["log_w"]
+        lw = g["frame"]["log_w"]          # values on entry (the stored array itself may have been modified: see the frame obligations)
         mx = red("max", lw)
         LOG = uf("log", RS, RS)
         mask = Arr(lw.n, "bool", lambda k: lw.at(k) - mx > LOG(u.at(k)), "want_mask")
@@ -392,7 +393,14 @@ class RejectionSample(Contract):
                 continue
             i = z3.Int(fresh("sk"))
             p.prove(z3.Implies(z3.And(i >= 0, i < lw.n), m_code.at(i) == mask.at(i)), f"{q}:C02:acceptance mask is log_w - max(log_w) > log(u) [{k}]")
-            want = arr_getitem(I, snap[k], m_code, None)
+            want = arr_getitem(I, g["frame"][k], m_code, None)
             p.prove(arr_eq_goal(got, want), f"{q}:C02:{k} == self.{k}[accept] with the one acceptance mask")
         dt = r.f.get("dtype")
         p.prove(z3.BoolVal(dtype_carried(dt, snap["dtype"])), f"{q}:C15:dtype of the source requested for the result")
+        # frame: the source sample set is not modified (values of every stored array, extensionally)
+        s0 = g["s"]
+        for k in list(FIELDS) + ["log_w", "weights"]:
+            before = g["frame"][k]
+            now = s0.f.get(k, NONE)
+            p.prove(arr_eq_goal(now, before), f"{q}:C02:frame: source field {k} unchanged by rejection sampling")
+
